@@ -281,3 +281,69 @@ INTERRUPT_SOURCES = [
 def interrupt_cases() -> list[tuple[str, dict[str, str], dict[str, Any]]]:
     tpl = dict(INTERRUPT_TEMPLATES, ibase="{% block b %}B{% endblock %}")
     return [(s, tpl, {"nothing": []}) for s in INTERRUPT_SOURCES]
+
+
+# ---------------------------------------------------------------- data of every shape in every argument position
+
+def shaped_values() -> list[Any]:
+    """Values whose SHAPE (not their type name) breaks naive code: unhashable
+    members, huge ints, infinities and nans as floats and as strings, empty
+    items, mappings that are also iterators (a real ForLoop), nesting."""
+    out: list[Any] = [
+        10 ** 5000, -(10 ** 5000), 10 ** 400, 2 ** 63, float("inf"), float("-inf"), float("nan"), 1e308, -0.0, 2.0,
+        "1e999", "-1e999", "inf", "nan", "", " ", "a", "50%", "9" * 5000,
+        [float("inf"), float("-inf")], ["1e999", "-1e999"], [float("nan"), 1], ["", "a"], [[], [1]], [[1], [1], {"a": 1}],
+        [{"a": [1]}, {"a": {"b": 1}}, {"a": None}, {}], [{"a": float("inf")}, {"a": float("-inf")}], [None, None], [True, 1, 1.0, "1"],
+        {"a": [1]}, {"a": 1, "b": {"c": []}}, {}, [], [1], {"size": -1, "first": [], "last": {}}, (1, 2), range(3), range(0),
+        None, True, False, 0, -1, 1.5, [10 ** 5000, 1], {"a": 10 ** 5000}, "\u00e9", ["b", "a", None, 2, 1.5, [1]],
+    ]
+    try:
+        from liquid2.builtin.tags.for_tag import ForLoop
+        out.append(ForLoop(name="i-x", it=iter([1, 2, 3]), length=3, parentloop=None))
+    except Exception:  # noqa: BLE001
+        pass
+    return out
+
+
+FILTER_SHAPES = ["{{ x | F }}", "{{ x | F: y }}", "{{ x | F: y, z }}", "{{ x | F: 'a' }}", "{{ x | F: 'a', y }}", "{{ x | F: 0 }}",
+                 "{{ x | F: i => i.a }}", "{% assign v = x | F: y %}{{ v | F }}",
+                 "{% for q in (1..2) %}{{ forloop | F }}{{ forloop | F: y }}{{ x | F: forloop }}{% endfor %}"]
+DATA_TAG_SHAPES = [
+    "{% for i in x %}{{ i }}{% endfor %}", "{% for i in x limit: y offset: z %}{{ i }}{% endfor %}", "{% for i in x reversed %}{{ forloop.index }}{% endfor %}",
+    "{% if x contains y %}t{% endif %}", "{% if x in y %}t{% endif %}", "{{ 1 if x in y }}", "{% if x == y %}t{% endif %}", "{% if x < y %}t{% endif %}",
+    "{% if x >= y or x != z %}t{% endif %}", "{% if x %}t{% endif %}", "{% unless x %}t{% endunless %}", "{% case x %}{% when y %}a{% when z %}b{% endcase %}",
+    "{{ x if y else z }}", "{% cycle x, y %}", "{% cycle x: y, z %}", "{{ (x..y) }}", "{% for i in (x..y) %}{% endfor %}", "{{ x }}", "{{ x }}{{ y }}{{ z }}",
+    "{% echo x %}", "{% assign v = x %}{{ v }}", "{% capture c %}{{ x }}{% endcapture %}{{ c | size }}", "{{ x[y] }}", "{{ x[y][z] }}", "{{ x.size }}{{ x.first }}{{ x.last }}",
+    "{% with a: x %}{{ a[y] }}{% endwith %}", "{% include 'p' with x as v %}", "{% include 'p' for x as v %}", "{% render 'p', v: x %}", "{% render 'p' for x as v %}",
+    "{% translate count: x %}a{% plural %}b{% endtranslate %}", "{% translate v: x %}Hi {{ v }}{% endtranslate %}", "{{ \"a${x}b${ y }\" }}",
+    "{% macro m a, b: x %}{{ a }}{{ b }}{% endmacro %}{% call m y, b: z %}", "{% increment x %}", "{% tablerow i in x cols: y limit: z %}{{ i }}{% endtablerow %}",
+    "{% liquid assign v = x | default: y\n echo v %}", "{{ x | default: y | default: z }}", "{% for i in x %}{% for j in i %}{{ j }}{% endfor %}{% endfor %}",
+]
+# the same with the real forloop object standing for x / y
+FORLOOP_WRAP = "{% for q in (1..2) %}{S}{% endfor %}"
+
+
+def data_argument_cases(r: random.Random, tier: str, filter_names: list[str]) -> list[tuple[str, dict[str, Any]]]:
+    vals = shaped_values()
+    k = 30 if tier == "thorough" else 5
+    out: list[tuple[str, dict[str, Any]]] = []
+
+    def draw() -> dict[str, Any]:
+        return {"x": r.choice(vals), "y": r.choice(vals), "z": r.choice(vals)}
+
+    for f in filter_names:
+        for shape in FILTER_SHAPES:
+            src = shape.replace("F", f)
+            for _ in range(k):
+                out.append((src, draw()))
+    for shape in DATA_TAG_SHAPES:
+        for _ in range(k * 6):
+            out.append((shape, draw()))
+        for var in ("x", "y"):
+            wrapped = FORLOOP_WRAP.replace("{S}", shape)
+            for _ in range(k):
+                d = draw()
+                # the loop variable named like the data variable shadows it with the ForLoop drop
+                out.append(("{% for q in (1..2) %}{% assign " + var + " = forloop %}" + shape + "{% endfor %}", d))
+            del wrapped
+    return out
